@@ -31,6 +31,8 @@ Inductive ccase :=
 (* GatherStep(depth) fed the arrivals in this order: list tokens on the output port, final status
    (None = the step has not terminated, i.e. some port never delivered a termination token) *)
 | CGather (depth : nat) (arr : list garr) (out : list tok) (fin : option status)
+(* ScatterStep fed xs then TerminationToken(COMPLETED): the status it terminated with *)
+| CScatterRun (xs : list tok) (obs : option status)
 | CMany (l : list ccase).
 
 Fixpoint check_case (c : ccase) : bool :=
@@ -45,6 +47,7 @@ Fixpoint check_case (c : ccase) : bool :=
   | CGather depth arr out fin =>
       let s := gather_run depth arr in
       list_eqb tok_eqb (gout (gd s)) out && opt_eqb status_eqb (gfinal s) fin
+  | CScatterRun xs obs => opt_eqb status_eqb (scatter_run_status xs Completed) obs
   | CMany l => (fix all (l : list ccase) : bool :=
                   match l with [] => true | c :: l' => check_case c && all l' end) l
   end.
